@@ -14,6 +14,8 @@ inline bool plant_clone(Ctx& g, Made const& orig, Made& out)
 {
     if (orig.kind < 0 || orig.kind == P_WEDGE || orig.kind == P_PARA)
         return false;
+    if (orig.kind == P_ELL && !g.lim.allow_small_ellipsoid)
+        return false;
     static double const ks[] = {0, 0.5, -0.5, 2, -2, 10, -10, 1000, -1000};
     double k = ks[g.i(0, 8)];
     std::vector<double> q = orig.par;
@@ -63,6 +65,24 @@ inline bool plant_clone(Ctx& g, Made const& orig, Made& out)
         q[idx] += delta;
         Made p = prim_from(g, orig.kind, q);
         out = orig.has_place ? xformed(g, p, place) : p;
+        if (orig.kind == P_CYL && idx == 0 && std::fabs(k) >= 2
+            && orig.has_place && place.rot)
+        {
+            bool general = false;
+            for (int i = 0; i < 3; ++i)
+                for (int j = 0; j < 3; ++j)
+                    general = general
+                              || (place.R[i][j] != 0 && fabsl(place.R[i][j]) != 1);
+            LD r = orig.par[0];
+            LD thr = std::max(LD(g.tol.abs), LD(g.tol.rel) * (cn * cn + r * r));
+            if (general && 2 * r * fabsl(LD(delta)) < 1.5L * thr)
+            {
+                if (!g.lim.allow_merged_quadric_clone)
+                    return false;
+                out.known |= KF13;
+                ++g.feat.n_merged_gq;
+            }
+        }
         if (orig.kind == P_ELL && std::fabs(k) >= 2)
         {
             // F11 (third form): the soft surface comparison is applied to
@@ -88,7 +108,7 @@ inline bool plant_clone(Ctx& g, Made const& orig, Made& out)
             LD thr0 = std::max(LD(g.tol.abs), LD(g.tol.rel) * a[3]);
             if (sqrtl(d2) < 1.5L * thr && fabsl(a[3] - b[3]) < 1.5L * thr0)
             {
-                out.f11 = true;
+                out.known |= KF11;
                 ++g.feat.n_small_ell;
             }
         }
@@ -159,7 +179,7 @@ gen_unit(Ctx& g, int depth_left, LD rball, bool is_global, int level)
         in.bounded = true;
         in.c = up(pl.x, pl.unit->bc);
         in.r = pl.unit->br;
-        in.f10 = pl.unit->boundary_f10;
+        in.known = pl.unit->boundary_known;
         {
             // ellipsoids of the daughter's boundary seen from this frame
             Made tmp;
@@ -176,8 +196,12 @@ gen_unit(Ctx& g, int depth_left, LD rball, bool is_global, int level)
                     for (int j = 0; j < 3; ++j)
                         e.R[i][j] = r[i][j];
             }
-            in.f11 = pl.unit->boundary_f11
-                     || ell_cross_terms_dropped(g, tmp.ells);
+            if (ell_cross_terms_dropped(g, tmp.ells))
+            {
+                if (!g.lim.allow_small_ellipsoid)
+                    throw Excluded("F11 class: ellipsoid cross terms");
+                in.known |= KF11;
+            }
         }
         u->daughters.push_back(pl);
         dint.push_back(in);
@@ -218,7 +242,9 @@ gen_unit(Ctx& g, int depth_left, LD rball, bool is_global, int level)
         }
         if (ell_cross_terms_dropped(g, obj.ells))
         {
-            obj.f11 = true;
+            if (!g.lim.allow_small_ellipsoid)
+                throw Excluded("F11 class: ellipsoid cross terms");
+            obj.known |= KF11;
             ++g.feat.n_small_ell;
         }
         cut.push_back(obj);
@@ -277,17 +303,16 @@ gen_unit(Ctx& g, int depth_left, LD rball, bool is_global, int level)
     u->boundary = bnd.orc;
     u->bc = bnd.c;
     u->br = bnd.r;
-    u->boundary_f10 = bnd.f10;
-    u->any_f10 = bnd.f10;
-    u->boundary_f11 = bnd.f11;
+    u->boundary_known = bnd.known;
     u->boundary_has_ell = bnd.has_ell;
     u->boundary_ells = bnd.ells;
     if (ell_cross_terms_dropped(g, bnd.ells))
     {
-        u->boundary_f11 = true;
-        u->any_f11 = true;
+        if (!g.lim.allow_small_ellipsoid)
+            throw Excluded("F11 class: ellipsoid cross terms");
+        u->boundary_known |= KF11;
     }
-    u->any_f11 = bnd.f11;
+    u->any_known = u->boundary_known;
     u->extent = std::max({reach, norm(bnd.c) + bnd.r, Rc});
 
     //// VOLUMES: first-match partition ////
@@ -320,13 +345,11 @@ gen_unit(Ctx& g, int depth_left, LD rball, bool is_global, int level)
         Entry e;
         e.orc = dint[d].orc;
         e.daughter = int(d);
-        e.f10 = dint[d].f10;
-        e.f11 = dint[d].f11;
+        e.known = dint[d].known;
         e.c = dint[d].c;
         e.r = dint[d].r;
         u->entries.push_back(e);
-        u->any_f10 = u->any_f10 || dint[d].f10;
-        u->any_f11 = u->any_f11 || dint[d].f11;
+        u->any_known |= dint[d].known;
         prev.push_back(dint[d]);
     }
     bool subtract_all = g.b(0.3);
@@ -391,13 +414,11 @@ gen_unit(Ctx& g, int depth_left, LD rball, bool is_global, int level)
         Entry e;
         e.orc = s.orc;
         e.label = vl;
-        e.f10 = s.f10;
-        e.f11 = s.f11;
+        e.known = s.known;
         e.c = s.c;
         e.r = s.r;
         u->entries.push_back(e);
-        u->any_f10 = u->any_f10 || s.f10;
-        u->any_f11 = u->any_f11 || s.f11;
+        u->any_known |= s.known;
         prev.push_back(s);
     }
     u->rest_label = "rest";
@@ -479,8 +500,10 @@ struct SurfPoint
 
 inline void surface_points_unit(GenGeo const& g, UnitG const& u, Xf const* chain,
                                 int nchain, Prng& rng, int per_object,
-                                std::vector<SurfPoint>& out, int budget)
+                                std::vector<SurfPoint>& out, int budget,
+                                LD floor = 0)
 {
+    floor = std::max(floor, std::max(LD(g.tol.abs), LD(g.tol.rel) * u.extent));
     auto to_global = [&](P3 p, bool dir) {
         for (int i = nchain - 1; i >= 0; --i)
             p = dir ? rot_up(chain[i], p) : up(chain[i], p);
@@ -526,7 +549,7 @@ inline void surface_points_unit(GenGeo const& g, UnitG const& u, Xf const* chain
             SurfPoint sp;
             sp.p = to_global(a, false);
             sp.n = to_global(P3{-gr.x / gn, -gr.y / gn, -gr.z / gn}, true);
-            sp.tol = unit_tol(g, u, a);
+            sp.tol = std::max(unit_tol(g, u, a), floor);
             out.push_back(sp);
         }
     };
@@ -542,7 +565,7 @@ inline void surface_points_unit(GenGeo const& g, UnitG const& u, Xf const* chain
             sub[i] = chain[i];
         sub[nchain] = pl.x;
         surface_points_unit(g, *pl.unit, sub, nchain + 1, rng, per_object, out,
-                            budget);
+                            budget, floor);
     }
 }
 
